@@ -70,7 +70,7 @@ CHECKS.update({
                   "docstring literal condition proved in Coq; same encoder, write plan, file-system models and lexer evaluated in Coq on every run against what the real writer wrote; the property "
                   "itself checked implementation-vs-implementation on generated models for both containers and chains.",
              note="trusted: Coq kernel + vm_compute, harness describe() and the ast abstraction in c04codec.py; modelled not verified: CPython tokenizer/ast/asttokens, pickle value fidelity, zipfile/pathlib, "
-                  "formula text (C20), reader instruction phases ((P) only), IOSpec references (C18); generator avoids D1 D8 D9 D24 and C04-local D33-D37",
+                  "formula text (C20), reader instruction phases ((P) only), IOSpec references (C18); generator avoids D24 and C04-local D33 D34 D36 (three variants) D37 (D1 D8 D9 D35 repaired in /repo and generated)",
              technique="Coq proof (induction over nested trees / write sequences) + generated-case correspondence by vm_compute + differential oracle on the real library", design="6/C04"),
  "C14": dict(text="Backup-chain invariant proved in Coq for ALL sequences of faulted and successful saves, zip and directory, one fault per save at any operation (unconditional since the /repo repair of D17; no path ever holds a partly written copy), over an executable model of "
                   "_increment_backups, ModelWriter.write_model and ModelReader.read_model, plus session/registry cleanliness after any failed operation; tied to /repo on every run by exhaustive "
@@ -88,13 +88,13 @@ CHECKS.update({
                   "specs are exactly those whose value is bound by a reference of an open model; rejected creations change nothing; no two specs share a location; _check_sanity assertions are "
                   "invariants. Tied to modelx on every run by replaying generated histories and comparing all spec/reference observables after every operation.",
              note="trusted: Coq kernel + vm_compute, drivers/iospec.py, emitter/oracle in props/C18.py; modelled not verified: object identity as tokens, derived refs recomputed; pandas/openpyxl/importlib "
-                  "file round trip checked on the implementation only; histories avoid triggers of 9 recorded defects (rebind_same, stale_derived repaired in /repo and generated), closed models and absolute paths",
+                  "file round trip checked on the implementation only; histories avoid triggers of 5 recorded defects (abspath delspace emptysheet read_override scalar; rebind_same stale_derived dup update_bound sheet_none sheet_to_none repaired in /repo and generated), closed models and absolute paths",
              technique="Coq invariant induction over fold_left step + vm_compute correspondence + implementation-side oracle + stored defect witnesses", design="6/C18"),
  "C20": dict(text="Coq proof over a line/token-position model of formula.py: normalisation to a canonical text, idempotence, name-only rename, docstring-only set_doc with read-back, lambda "
                   "extraction, for all well-formed structured texts; tied to /repo on every run by evaluating the model on the real texts with asttokens positions, plus a behavioural oracle "
                   "(values, parameters, AST, comments).",
              note="partial: CPython tokenizer/compiler, ast+asttokens positions, textwrap.dedent, inspect.getsource modelled not verified (positions are inputs cross-checked per case); behavioural half "
-                  "rests on the (P) oracle; insert_indents=True, multi-line lambdas, _reload, NULL_FORMULA outside theorems; D31-D36 recorded findings avoided (D10, D30 repaired in /repo and generated)",
+                  "rests on the (P) oracle; insert_indents=True, multi-line lambdas, _reload, NULL_FORMULA outside theorems; D31 D33 D34 D35 recorded findings avoided (D10 D30 D32 D36 repaired in /repo and generated)",
              technique="Coq Gallina model + inductive proofs + vm_compute correspondence on generated structured texts + differential oracle", design="6/C20"),
 })
 CHECKS.update({
